@@ -45,6 +45,9 @@ type Obligation struct {
 	Size    int
 }
 
+// abortHarness ends the symbolic execution of a harness early (the finding is already recorded)
+type abortHarness struct{ why string }
+
 type TaintFinding struct {
 	Kind, Pos, Fn string
 }
@@ -62,6 +65,7 @@ type readerCall struct {
 	n      int
 	pos    string
 	pc     *Term
+	direct bool // a bare Read call (may deliver fewer bytes) rather than io.ReadFull
 }
 
 type catchRec struct {
@@ -94,6 +98,7 @@ type HarnessRun struct {
 	catches    []*catchRec
 	pruneForks bool
 	noMerge    bool
+	stopOnTaint bool
 	invPairs   [][2]*Term
 	invMod     *big.Int
 	symN       int
@@ -151,6 +156,9 @@ func (h *HarnessRun) addTaint(e *Engine, kind, pos, fn string) {
 	}
 	h.taintSeen[k] = true
 	h.taints = append(h.taints, TaintFinding{kind, pos, fn})
+	if h.stopOnTaint {
+		panic(abortHarness{"secret-dependent " + kind + " at " + pos})
+	}
 }
 
 func (h *HarnessRun) taintSite(k string) {
@@ -430,6 +438,10 @@ func init() {
 		},
 		"vNoMerge": func(e *Engine, fr *Frame, s *State, f *ssa.Function, args []Value, pos string) Value {
 			e.H.noMerge = args[0].(*Term).IsTrue()
+			return nil
+		},
+		"vStopOnTaint": func(e *Engine, fr *Frame, s *State, f *ssa.Function, args []Value, pos string) Value {
+			e.H.stopOnTaint = args[0].(*Term).IsTrue()
 			return nil
 		},
 		"vPrune": func(e *Engine, fr *Frame, s *State, f *ssa.Function, args []Value, pos string) Value {
@@ -731,6 +743,13 @@ func init() {
 				return e.st.BVi(-1, e.intw)
 			}
 			return e.st.BVu(uint64(e.H.readerCalls[k].n), e.intw)
+		},
+		"vReaderCallIsReadFull": func(e *Engine, fr *Frame, s *State, f *ssa.Function, args []Value, pos string) Value {
+			k := constInt(args[0], "call index")
+			if k >= len(e.H.readerCalls) {
+				return e.st.False()
+			}
+			return e.st.Bool(!e.H.readerCalls[k].direct)
 		},
 		"vReaderFailed": func(e *Engine, fr *Frame, s *State, f *ssa.Function, args []Value, pos string) Value {
 			k := constInt(args[0], "call index")
